@@ -82,6 +82,14 @@ func runC17(c *Ctx) {
 				c17key{name: "ecdsa-" + cv.Params().Name + "-negative-y", pub: &ecdsa.PublicKey{Curve: cv, X: k.X, Y: new(big.Int).Neg(k.Y)}, family: "ecdsa", ecdhOK: false},
 				c17key{name: "ecdsa-" + cv.Params().Name + "-y-mirrored", pub: &ecdsa.PublicKey{Curve: cv, X: k.X, Y: new(big.Int).Sub(p, k.Y)}, family: "ecdsa", ecdhOK: true},
 			)
+			// valid points with a zero coordinate: (0, sqrt(b)) lies on each of the three curves
+			if y0 := new(big.Int).ModSqrt(cv.Params().B, p); y0 != nil && cv.IsOnCurve(new(big.Int), y0) {
+				keys = append(keys,
+					c17key{name: "ecdsa-" + cv.Params().Name + "-valid-point-x=0", pub: &ecdsa.PublicKey{Curve: cv, X: new(big.Int), Y: y0}, family: "ecdsa", ecdhOK: true},
+					c17key{name: "ecdsa-" + cv.Params().Name + "-valid-point-x=0-mirrored", pub: &ecdsa.PublicKey{Curve: cv, X: new(big.Int), Y: new(big.Int).Sub(p, y0)}, family: "ecdsa", ecdhOK: true},
+					c17key{name: "ecdsa-" + cv.Params().Name + "-x=0-y=0", pub: &ecdsa.PublicKey{Curve: cv, X: new(big.Int), Y: new(big.Int)}, family: "ecdsa", ecdhOK: false},
+				)
+			}
 		}
 	}
 	ed := gen.EdKey(r)
